@@ -17,6 +17,10 @@
                                     index or any of 15, scale 1/2/4/8, every 32-bit displacement, both address sizes) is read
                                     back exactly from its canonical ModRM/SIB/displacement encoding (rsp/r12 needing a SIB
                                     byte, rbp/r13 needing a displacement, disp8 vs disp32, no-base disp32 included);
+   * `mov_load_every_disp`         — kernel-checked, SYMBOLIC in the displacement: for each of the 16 base registers and EVERY
+                                    d in −2^31..2^31−1 the second half of the per-line pipeline emits, for `mov rax, [base + d]`,
+                                    REX/opcode followed by exactly the canonical ModRM/SIB/displacement encoding (AL.Lemmas.MemLoad.mem_bytes,
+                                    memBytes_canonical) — which the decoder reads back as that operand (previous item);
    * C11 `swap_same_address`, `nobase_scale2_same_address`, `nobase_scale1_same_address` — the NASM rewritings
                                     keep the address, for every register valuation.
 -/
@@ -24,8 +28,9 @@ import AL.Properties.Sweep.C02
 import AL.Spec.X86Lemmas
 import AL.Spec.X86MemRoundTrip
 import AL.Properties.C11
+import AL.Lemmas.MemLoad
 namespace AL.Properties.C02
-open AL AL.Impl AL.Spec.X86
+open AL AL.Impl AL.Gen AL.Spec.X86 AL.Lemmas.MemLoad AL.Lemmas.MovImm
 
 def mkMemEx : Mem := { size := 64, addr32 := false, base := some 13, index := some 12, scale := 8, disp := -129 }
 
@@ -49,5 +54,41 @@ theorem decoder_reads_every_operand (m : Mem) (h : m.wf) (e : Ext) (reg : Nat) (
 /-- non-vacuity: `[r13+r12*8-0x81]` is well formed and encodes as mod 10, SIB, disp32 -/
 example : (mkMemEx).wf ∧ (encodeMemRef mkMemEx).mod = 2 ∧ (encodeMemRef mkMemEx).sib = [0xE5] := by
   refine ⟨⟨rfl, ?_, ?_, ?_, ?_, ?_, ?_⟩, rfl, rfl⟩ <;> simp [mkMemEx]
+
+theorem memOf_wf (n : Nat) (hn : n < 16) (d : Int) (h1 : -2147483648 ≤ d) (h2 : d < 2147483648) : (memOf n d).wf := by
+  refine ⟨rfl, ?_, ?_, ?_, ?_, h1, h2⟩
+  · intro b hb; simp [memOf] at hb; omega
+  · intro i hi; simp [memOf] at hi
+  · intro _; rfl
+  · left; rfl
+
+/-- **`mov rax, [base + d]`, every base register, EVERY displacement**: the second half of the per-line pipeline emits
+    REX.W(+B) 8B followed by exactly the canonical ModRM / SIB / displacement encoding of `[base + d]`, and the reference decoder
+    reads that encoding back as base, no index, displacement d (sign-extended), 64-bit access -/
+theorem mov_load_every_disp (n : Nat) (name : Str) (g : Nat) (hp : (n, name, g) ∈ regs64) (d : Int)
+    (h1 : -2147483648 ≤ d) (h2 : d < 2147483648) (opt : Nat) (rest : List Nat) :
+    lineBytes opt (memRec name g (dispClass d).1 (dispClass d).2) =
+      some ([0x48 + (if n ≥ 8 then 1 else 0), 0x8b, (encodeMemRef (memOf n d)).mod * 64 + (encodeMemRef (memOf n d)).rm] ++
+        (encodeMemRef (memOf n d)).sib ++ (encodeMemRef (memOf n d)).disp) ∧
+    decodeMem { w := true, x := (encodeMemRef (memOf n d)).x, b := (encodeMemRef (memOf n d)).b, rex := true } false
+        ⟨(encodeMemRef (memOf n d)).mod, 0, (encodeMemRef (memOf n d)).rm⟩ 64
+        ((encodeMemRef (memOf n d)).sib ++ (encodeMemRef (memOf n d)).disp ++ rest) =
+      some (memOf n d, (encodeMemRef (memOf n d)).sib.length + (encodeMemRef (memOf n d)).disp.length) := by
+  have hn : n < 16 := by
+    simp only [regs64, List.mem_cons, Prod.mk.injEq, List.not_mem_nil, or_false] at hp
+    omega
+  constructor
+  · rw [mem_bytes n name g hp _ _ opt (dispClass_ok d h1 h2), memBytes_canonical n hn d h1 h2]
+  · exact decodeMem_encodeMemRef (memOf n d) (memOf_wf n hn d h1 h2) _ 0 rest rfl rfl
+
+/-- the record is what the lexer produces (instances; the lexing of every family line is part of `Sweep.c02_sweep`) -/
+example : (match lexLine (str! "mov rax,[rbx-0x10]") with | .ok s => s == memRec (str! "rbx") 1027 (dispClass (-16)).1 (dispClass (-16)).2 | _ => false) = true := by
+  decide +kernel
+example : (match lexLine (str! "mov rax,[rsp-0x100]") with | .ok s => s == memRec (str! "rsp") 1028 (dispClass (-256)).1 (dispClass (-256)).2 | _ => false) = true := by
+  decide +kernel
+example : (match lexLine (str! "mov rax,[r13]") with | .ok s => s == memRec (str! "r13") 1165 (dispClass 0).1 (dispClass 0).2 | _ => false) = true := by
+  decide +kernel
+example : (match lexLine (str! "mov rax,[r9+0x12345678]") with | .ok s => s == memRec (str! "r9") 1161 (dispClass 0x12345678).1 (dispClass 0x12345678).2 | _ => false) = true := by
+  decide +kernel
 
 end AL.Properties.C02
